@@ -112,6 +112,25 @@ theorem c02_setup_builder_millis (p : Option Payload) (de me : Bytes) (ka li : N
   simp only [build]
   congr 1 <;> omega
 
+/-- **the SETUP the peer decodes states the configured periods** — every whole number of milliseconds
+below 2^32, *also at and above 2^31* (a lifetime of 25 days and more: the fields are 32-bit words, the
+statement seeded change C16n broke by masking them to 31 bits) -/
+theorem c02_setup_builder_periods_roundtrip (p : Option Payload) (de me : Bytes) (ka li : Nat) (l : Bool)
+    (hka : ka < 2 ^ 32) (hli : li < 2 ^ 32) (hde : de.length < 128) (hme : me.length < 128)
+    (hmd : (match p with | some q => ob q.md | none => []).length < 2 ^ 24) :
+    decode (encode (build (.setup p de me (1000 * ka) (1000 * li) l))) =
+      .frame (.setup 0 false l false 1 0 ka li [] me de
+        (match p with | some q => ob q.md | none => []) (match p with | some q => ob q.d | none => [])) := by
+  cases p with
+  | none =>
+    rw [c02_setup_builder_millis]
+    exact c02_decode_encode _ ⟨by decide, by decide, by decide, hka, hli, by decide, fun _ => rfl, hme, hde, by simp⟩
+  | some q =>
+    rw [c02_setup_builder_millis]
+    exact c02_decode_encode _ ⟨by decide, by decide, by decide, hka, hli, by decide, fun _ => rfl, hme, hde, hmd⟩
+
+example : (2 : Nat) ^ 31 + 444516352 < 2 ^ 32 := by decide
+
 /-- exact wire size of an element frame: 6 header bytes, 3 more and the metadata if there is any, the data -/
 theorem c02_payload_builder_size (sid : Nat) (p : Payload) (cm nx : Bool) :
     (encode (build (.payload sid p cm nx))).length =
